@@ -190,7 +190,7 @@ impl Gen {
             38..=39 => Self::merge(
                 self.small_area(um),
                 json!({"op": "border", "btype": *self.pick(&["All", "Inner", "Outer", "Top", "Right", "Bottom", "Left", "CenterH", "CenterV", "None"]),
-                       "bstyle": *self.pick(&["thin", "medium", "thick", "double"]), "color": *self.pick(&["#000000", "#FF0000"])}),
+                       "bstyle": *self.pick(&["thin", "medium", "thick", "double", "dotted", "slantdashdot", "mediumdashed", "mediumdashdotdot", "mediumdashdot"]), "color": *self.pick(&["#000000", "#FF0000"])}),
             ),
             40 => Self::merge(self.small_area(um), json!({"op": "paste_styles", "style": self.style_spec(), "sw": self.rng.gen_range(1..=2), "sh": self.rng.gen_range(1..=2)})),
             41..=44 => json!({"op": *self.pick(&["insert_rows", "insert_cols"]), "s": s, "i": self.rng.gen_range(1..=self.win), "k": self.rng.gen_range(1..=2)}),
